@@ -12,7 +12,7 @@ import more_itertools
 from cirbo.core.boolean_function import RawTruthTableModel
 from cirbo.core.circuit import Circuit
 from cirbo.core.circuit.exceptions import CircuitValidationError
-from cirbo.core.circuit.gate import Label
+from cirbo.core.circuit.gate import Label, NOT
 from cirbo.core.circuit.operators import GateState, Undefined
 from cirbo.core.circuit.validation import check_circuit_has_no_cycles
 from cirbo.core.logic import DontCare
@@ -503,18 +503,22 @@ def minimize_subcircuits(
         if not filtered_outputs:
             logger.debug("All outputs have trivial input patterns")
             for output in subcircuit.outputs:
-                new_output = (
-                    outputs_mapping[output]
-                    if output in outputs_mapping
-                    else outputs_negation_mapping[output]
-                )
-                for user in circuit.get_gate_users(output):
+                if output in outputs_mapping:
+                    new_output = outputs_mapping[output]
+                else:
+                    # the output equals the negation of a cut leaf
+                    negated_leaf = outputs_negation_mapping[output]
+                    new_output = f"not_{negated_leaf}_" + uuid.uuid4().hex
+                    circuit.emplace_gate(new_output, NOT, (negated_leaf,))
+                for user in list(circuit.get_gate_users(output)):
                     new_operands = tuple(
                         new_output if operand == output else operand
                         for operand in circuit.get_gate(user).operands
                     )
                     circuit.get_gate(user)._operands = new_operands
-                    circuit._gate_to_users[new_output].append(user)
+                    circuit._add_user(new_output, user)
+                # all users were relinked to `new_output`
+                circuit._gate_to_users[output] = []
                 circuit._outputs = [
                     new_output if x == output else x for x in circuit._outputs
                 ]
